@@ -210,6 +210,24 @@ pub proof fn lemma_fold_initial(s: Seq<u8>)
     }
 }
 
+/// every response the fold completes has at least one frame or an error
+pub proof fn lemma_fold_done_nonempty(st: StateB, s: Seq<u8>)
+    requires (st matches StateB::List(_, d) ==> d.len() >= 1)
+    ensures spec_fold(st, s) matches FoldB::Done(r, _) ==> r.frames.len() >= 1 || r.error is Some
+    decreases s.len()
+{
+    if s.len() > 0 {
+        match spec_component(s) {
+            PR::Good(cv, used) => { if 0 < used <= s.len() {
+                match spec_step(st, cv, s, used) {
+                    StepB::St(st2) => { lemma_fold_done_nonempty(st2, s.subrange(used, s.len() as int)); }
+                    StepB::Resp(r) => {}
+                } } }
+            _ => {}
+        }
+    }
+}
+
 /// one response parsed from the start of a stream
 pub open spec fn spec_parse_one(s: Seq<u8>) -> FoldB { spec_fold(StateB::Initial, s) }
 
